@@ -31,7 +31,10 @@ REQUIRED = ["at_most_once_atomic", "at_most_one_success_atomic", "at_most_one_su
             "fact_consumer_calls", "fact_store_keys", "fact_call_sites", "fact_engine_wiring", "fact_requests_are_self_contained", "fact_keyspace_disjoint", "keyspace_disjoint", "keyspace_disjoint_redis", "fact_key_construction", "put_total_on_keys", "fact_store_users", "fact_prefixes_distinct", "fact_gad_atomic_today",
             "fact_mark_atomic_today", "fact_session_store_shapes", "fact_ttls_positive", "two_success_witness_multinode",
             # request-level layer (Props/C05Forms.lean)
-            "fact_form_sources", "fact_form_tables", "code_dead_after_any_attempt", "vp_nonce_dead_after_any_response", "refused_grant_touches_nothing"]
+            "fact_form_sources", "fact_form_tables", "code_dead_after_any_attempt", "vp_nonce_dead_after_any_response", "refused_grant_touches_nothing",
+            "handleCode_refines_thread", "token_endpoint_at_most_once_all_schedules",
+            "s2s_envelope_accepted_only_if_all_fresh", "s2s_nonce_no_replay_within_ttl", "vp_nonce_accepted_only_if_common",
+            "request_object_dead_after_any_fetch", "landing_token_dead_after_use", "dpop_refusal_registers_nothing", "dpop_jti_replay_refused"]
 
 
 def oracle(op, line, facts):
@@ -120,7 +123,35 @@ def forms_oracle(op, line, facts):
             for n in sorted({_pres_nonce(p) for p in r["vp"]} - {""}):
                 if ("vpnonce/" + n) in live:
                     bad.append((f"C05:vpnonce:{where}:form-nonce-alive-after-attempt", f"request {j} named nonce {n!r} (answer {a}); the nonce is still stored at the end"))
+        # a request object / landing token named by a request is gone at the end
+        if r["t"] == "reqobj" and ("reqobj/" + r.get("id", "")) in live:
+            bad.append((f"C05:reqobj:{where}:form-object-alive-after-fetch", f"request {j} fetched request object {r.get('id', '')!r} (answer {a}); it is still stored at the end"))
+        if r["t"] == "landing" and r.get("token") and ("redirect/" + r["token"]) in live:
+            bad.append((f"C05:redirect:{where}:form-token-alive-after-use", f"request {j} presented landing token {r['token']!r} (answer {a}); it is still stored at the end"))
         if a != "200":
+            continue
+        if r["t"] in ("reqobj", "landing"):
+            kind, sid = ("reqobj", r.get("id", "")) if r["t"] == "reqobj" else ("redirect", r.get("token", ""))
+            if (kind, sid) not in issued:
+                bad.append((f"C05:{kind}:{where}:form-honoured-never-issued", f"request {j}: {kind} {sid!r} was never issued"))
+            if t[j] > facts.get(TTL_FACT[kind], 0):
+                bad.append((f"C05:{kind}:{where}:form-honoured-after-ttl", f"request {j}: {kind} {sid!r} honoured at t={t[j]}"))
+            for i in range(j):
+                q = reqs[i]
+                if q["t"] == r["t"] and (q.get("id", "") if kind == "reqobj" else q.get("token", "")) == sid:
+                    bad.append((f"C05:{kind}:{where}:form-honoured-after-earlier-attempt",
+                                f"request {j} was honoured with {kind} {sid!r} after request {i} (answer {ans[i]}) had presented it"))
+            continue
+        if r["t"] == "dpop":
+            ttl = facts.get(TTL_FACT["jti"], 0)
+            if r.get("badParse") or r.get("badMatch") or r.get("noAth") or r.get("badAth"):
+                bad.append((f"C05:jti:{where}:form-invalid-proof-accepted", f"request {j}: {r}"))
+            if ("jti", r.get("jti", "")) in issued and t[j] < ttl:
+                bad.append((f"C05:jti:{where}:form-honoured-used-jti", f"request {j}: jti {r.get('jti', '')!r} was registered as used at t=0"))
+            for i in range(j):
+                q = reqs[i]
+                if q["t"] == "dpop" and q.get("jti", "") == r.get("jti", "") and ans[i] == "200" and t[j] - t[i] < ttl:
+                    bad.append((f"C05:jti:{where}:form-two-requests-honoured", f"requests {i} and {j} were both accepted with jti {r.get('jti', '')!r} within the TTL"))
             continue
         if code_req:
             c = r["code"]
@@ -269,7 +300,7 @@ def run(ctx):
             for a in line.split(" live=")[0][len("forms ans="):].split(";"):
                 form_answers[a.split("|")[-1][:40]] += 1
             for r in op["reqs"]:
-                form_kinds[r["t"] + ":" + (r.get("grant", "") if r["t"] == "token" else str(len(r.get("vp") or [])) + "vp")] += 1
+                form_kinds[r["t"] + (":" + r.get("grant", "") if r["t"] == "token" else ":" + str(len(r.get("vp") or [])) + "vp" if r["t"] == "response" else "")] += 1
             for sig, what in forms_oracle(op, line, facts):
                 n_bad += 1
                 if sig in seen:
